@@ -201,8 +201,45 @@ def sliced_part(chk, thorough):
             chk.violation(f'sliced:{what}:{form}', f'[{cfg}] {got} != builder form {ref}', ctx)
 
 
+def rebatching_part(chk, thorough):
+  """A re-batching operator (batch(k)) under worker threads and shards: the rows are those of the sequential run under
+  every strategy; the property also asks for the same multiset of emitted BATCHES."""
+  from ml_metrics._src.chainables import io, transform
+
+  def run(n, k, threads, shards):
+    def one(shard):
+      kw = dict(num_threads=threads) if threads else {}
+      p = transform.TreeTransform.new(name='p', **kw).data_source(io.SequenceDataSource(list(range(n)))).apply(fn=lib.add100).batch(k)
+      return [list(b) for b in p.make(shard=shard).iterate()]
+    if shards == 1:
+      return one(None)
+    out = []
+    for i in range(shards):
+      out += one(io.ShardConfig(shard_index=i, num_shards=shards))
+    return out
+
+  for n in ((0, 1, 5, 10) if not thorough else (0, 1, 2, 5, 7, 10, 13)):
+    for k in (2, 4):
+      ref = run(n, k, 0, 1)
+      for threads, shards in ((1, 1), (2, 1), (3, 1), (0, 2), (0, 3), (2, 2)):
+        cfg = f'apply | batch({k}) over {n} elements, num_threads={threads}, shards={shards}'
+        ctx = dict(kind='exec-strategy-rebatching', n=n, batch=k, num_threads=threads, shards=shards)
+        status, got = dist.run_with_deadline(lambda: run(n, k, threads, shards), 30)
+        chk.replayed()
+        how = 'threads' if threads > 1 else 'shards' if shards > 1 else 'one-thread'
+        if status != 'ok':
+          chk.violation(f'rebatching:{status}:{how}', f'[{cfg}] {got!r}', ctx)
+          continue
+        rows, ref_rows = sorted(x for b in got for x in b), sorted(x for b in ref for x in b)
+        if rows != ref_rows:
+          chk.violation(f'rebatching:rows:{how}', f'[{cfg}] rows {rows}, sequential run {ref_rows}', ctx)
+        elif sorted(map(tuple, got)) != sorted(map(tuple, ref)):
+          chk.violation(f'rebatching:batches-differ:{how}', f'[{cfg}] emitted batches {got}, sequential run {ref}', ctx)
+
+
 def body(chk):
   thorough = chk.tier == 'thorough'
+  rebatching_part(chk, thorough)
   # 1. design level
   for n, shards, threads, prog in ([(4, 2, 2, 'mapfilter'), (3, 1, 3, 'map'), (5, 3, 1, 'filter'), (2, 3, 2, 'map')] +
                                    ([(6, 2, 2, 'mapfilter'), (5, 2, 3, 'filter')] if thorough else [])):
